@@ -74,8 +74,8 @@ type Val struct {
 	S     []byte `json:"s,omitempty"` // String / Raw
 	I     int64  `json:"i,omitempty"`
 	U     uint64 `json:"u,omitempty"`
-	F     uint64 `json:"f,omitempty"` // float64 bits
-	T     int64  `json:"tm,omitempty"` // unix milliseconds, UTC
+	F     uint64 `json:"f,omitempty"`   // float64 bits
+	T     int64  `json:"tm,omitempty"`  // unix milliseconds, UTC
 	Sub   int32  `json:"sub,omitempty"` // nanoseconds below the millisecond of the time.Time handed to the library (the wire format has milliseconds: they are cut off, not rounded)
 	B     bool   `json:"b,omitempty"`
 	Decoy bool   `json:"decoy,omitempty"`
@@ -107,7 +107,7 @@ type Case struct {
 	TrailerCSVal string `json:"trailer_cs_val,omitempty"`
 }
 
-func (v *Val) Float() float64 { return math.Float64frombits(v.F) }
+func (v *Val) Float() float64  { return math.Float64frombits(v.F) }
 func (v *Val) Time() time.Time { return time.UnixMilli(v.T).UTC() }
 
 // TimeGiven is the time.Time the application hands to a constructor or setter.
